@@ -168,6 +168,7 @@ class Interp:
         self.exc_parent = self._exc_hierarchy()
         self.n_forks = 0
         self.cut_paths = 0
+        self._irr_cache = {}
 
     # ------------------------------------------------------------------ API
     def run_entry(self, func):
@@ -951,7 +952,9 @@ class Interp:
             yield st, self.cur_parent(st, recv), None
             return
         if mname == self.link_children:
-            yield st, ("list_of", recv), None
+            s1 = st.copy()
+            s1.emit(Event("LISTREAD", func, stmt, frame.id, recv=recv))
+            yield s1, ("list_of", recv), None
             return
         if recv[0] == "global":
             yield st, ("global", "%s.%s" % (recv[1], attr)), None
@@ -1131,10 +1134,71 @@ class Interp:
         s2.emit(ev)
         yield s2, None, Exc("<unknown>", "unknown", ev)
 
+    def _irrelevant(self, mem, _seen=None):
+        """(irrelevant, has_opaque): the member neither writes a link, calls a hook,
+        raises, nor assigns parent/children — inlining it adds nothing to the event
+        trace; has_opaque: it contains a callee that may raise."""
+        if mem in self._irr_cache:
+            return self._irr_cache[mem]
+        _seen = _seen or set()
+        if mem in _seen:
+            return (True, False)
+        _seen.add(mem)
+        irr, opaque = True, False
+        cname = mem.cls.name if mem.cls else ""
+        for n in ast.walk(mem.node):
+            if isinstance(n, ast.Raise):
+                irr = False
+            elif isinstance(n, ast.Attribute):
+                m = mangle(cname, n.attr)
+                if isinstance(n.ctx, (ast.Store, ast.Del)) and (m in (self.link_parent, self.link_children) or n.attr in ("parent", "children")):
+                    irr = False
+                if n.attr in T.HOOKS:
+                    irr = False
+            elif isinstance(n, ast.Call):
+                f = n.func
+                if isinstance(f, ast.Attribute):
+                    sub = self._member(f.attr)
+                    if isinstance(sub, Func) and (_is_generator_func(sub) or sub.srcname in T.READONLY_MEMBERS):
+                        pass  # read-only navigation (purity is C04's rule)
+                    elif isinstance(sub, Func):
+                        a, b = self._irrelevant(sub, _seen)
+                        irr, opaque = irr and a, opaque or b
+                    elif isinstance(sub, Prop):
+                        pass
+                    elif f.attr in T.MUTATING_METHODS | T.PURE_METHODS:
+                        pass
+                    else:
+                        opaque = True
+                elif isinstance(f, ast.Name):
+                    if f.id not in T.PURE_BUILTINS and f.id not in T.EXC_BUILTINS:
+                        opaque = True
+                else:
+                    opaque = True
+        if _is_generator_func(mem):
+            irr = False
+        self._irr_cache[mem] = (irr, opaque)
+        return self._irr_cache[mem]
+
     def _call_member(self, mem, recv, args, st, frame, stmt):
         """Inline a member function of the class. yield (state, role, exc)."""
         func = frame.func
         depth = len(frame.stack())
+        if isinstance(stmt, ast.Expr) and mem.kind == "method" and mem.srcname not in T.HOOKS:
+            irr, opaque = self._irrelevant(mem)
+            if irr:
+                s1 = st.copy()
+                s1.emit(Event("CALLSUMMARY", func, stmt, frame.id, name=mem.qual, recv=recv, text="no link write, hook or raise inside"))
+                if opaque:
+                    ev = Event("UNKNOWNCALL", func, stmt, frame.id, text=mem.qual + " (opaque callee inside)")
+                    s1.emit(ev)
+                    yield s1, NONE, None
+                    s2 = st.copy()
+                    s2.emit(ev)
+                    yield s2, None, Exc("<unknown>", "unknown", ev)
+                else:
+                    yield s1, NONE, None
+                return
         if mem in frame.stack() and mem.kind in ("setter", "deleter"):
             ev = Event("REENTER", func, stmt, frame.id, name=mem.qual, recv=recv, args=tuple(args))
             s1 = st.copy()
